@@ -185,7 +185,7 @@ def base_value(t, defs, depth=2, salt=0, csize=2):
 def sparse_or_full(t, defs, depth, salt, csize, j):
     """struct elements alternate between a fully populated and an all-zero (sparse) value, so
     that consecutive elements differ in which fields they carry"""
-    if t["k"] == "struct" and j % 2 == 1:
+    if t["k"] == "struct" and (j + salt) % 2 == 1:
         z = zero_struct(t["s"], defs)
         return {"p": 1, "v": z} if t.get("ptr") else z
     return base_value(t, defs, depth, salt, csize)
@@ -474,6 +474,13 @@ def universe_fields():
     f = field(i, "default", T("i32")); f["def"] = [0, 0, 0, 42]; fs.append(f); i += 1
     f = field(i, "optional", L(T("i32"))); fs.append(f); i += 1
     f = field(i, "optional", T("double")); f["def"] = [127, 248, 0, 0, 0, 0, 0, 0]; fs.append(f); i += 1   # NaN default
+    # containers with non-empty declared defaults: an empty container in the message overrides them
+    f = field(i, "optional", L(T("i32"))); f["def"] = {"nil": False, "items": [[0, 0, 0, 30]]}; fs.append(f); i += 1
+    f = field(i, "default", SET(T("string"))); f["def"] = {"nil": False, "items": [list(b"a"), list(b"b")]}; fs.append(f); i += 1
+    f = field(i, "optional", M(T("string"), T("i32"))); f["def"] = {"nil": False, "ents": [[list(b"k"), [0, 0, 0, 1]]]}; fs.append(f); i += 1
+    f = field(i, "default", T("binary")); f["def"] = {"nil": False, "b": [9, 9]}; fs.append(f); i += 1
+    f = field(i, "default", T("string")); f["def"] = list(b"dd"); fs.append(f); i += 1
+    f = field(i, "optional", T("i64", True)); f["def"] = {"p": 1, "v": [0] * 7 + [5]}; fs.append(f); i += 1          # non-nil pointer default
     defs["Defaults"] = struct(fs, init=True)
     # field ids on both sides of presence-set word boundaries
     ids = [0, 1, 63, 64, 65, 127, 128, 255, 256, 1023, 1024, 32767, 32768, 65534]
